@@ -169,4 +169,144 @@ theorem timeOverrideCheck_arel (new : StdKey) :
   · exact ARel.pure trivial
   · exact ARel.awarn _ (by rw [List.length_append, List.length_append, hl2]; rfl)
 
+/-- `do modify f; pure ()` with the same `f` on both sides, all compared fields rewritten alike -/
+macro "amod" : tactic => `(tactic|
+  (apply ARel.bind (R := fun _ _ => True) (ARel.modify (by intro c' c hc; colsim hc)); intro _ _ _; exact ARel.pure trivial))
+macro "aerrp" : tactic => `(tactic|
+  (apply ARel.bind (R := fun _ _ => True) (ARel.aerr _ (by rfl)); intro _ _ _; exact ARel.pure trivial))
+
+/-- the part of `metadata` after the entry was stored: the standard-key checks -/
+theorem metadataStd_arel (env : Env) (sk : StdKey) (val : Str) (a' a : Span) (l' l : List Span)
+    (hl : l'.length = l.length) :
+    ARel (α := α) uws (fun _ _ => True)
+      (match env.stdCheck sk val with
+        | .rejected => do awarn "std-unsupported-value" l'; pure ()
+        | .servings sv => do
+          modify fun s => { s with servings := some sv }
+          modify fun s => { s with metaLocs := (s.metaLocs.filter (fun p => p.1 != sk)) ++ [(sk, a')] }
+          if stdKeyIsTime sk then timeOverrideCheck sk else pure ()
+        | .ok => do
+          modify fun s => { s with metaLocs := (s.metaLocs.filter (fun p => p.1 != sk)) ++ [(sk, a')] }
+          if stdKeyIsTime sk then timeOverrideCheck sk else pure ())
+      (match env.stdCheck sk val with
+        | .rejected => do awarn "std-unsupported-value" l; pure ()
+        | .servings sv => do
+          modify fun s => { s with servings := some sv }
+          modify fun s => { s with metaLocs := (s.metaLocs.filter (fun p => p.1 != sk)) ++ [(sk, a)] }
+          if stdKeyIsTime sk then timeOverrideCheck sk else pure ()
+        | .ok => do
+          modify fun s => { s with metaLocs := (s.metaLocs.filter (fun p => p.1 != sk)) ++ [(sk, a)] }
+          if stdKeyIsTime sk then timeOverrideCheck sk else pure ()) := by
+  have hml : ARel (α := α) uws (fun _ _ => True)
+      (modify fun s => { s with metaLocs := (s.metaLocs.filter (fun p => p.1 != sk)) ++ [(sk, a')] })
+      (modify fun s => { s with metaLocs := (s.metaLocs.filter (fun p => p.1 != sk)) ++ [(sk, a)] }) := by
+    apply ARel.modify
+    intro c' c hc
+    colsim hc
+    show ((c'.metaLocs.filter (fun p => p.1 != sk)) ++ [(sk, a')]).map (·.1) =
+      ((c.metaLocs.filter (fun p => p.1 != sk)) ++ [(sk, a)]).map (·.1)
+    rw [List.map_append, List.map_append, metaLocs_filter hc.metaLocs (fun k => k != sk)]
+    rfl
+  have htail : ARel (α := α) uws (fun _ _ => True)
+      (if stdKeyIsTime sk then timeOverrideCheck sk else pure ())
+      (if stdKeyIsTime sk then timeOverrideCheck sk else pure ()) := by
+    apply ARel.ite
+    · exact timeOverrideCheck_arel sk
+    · exact ARel.pure trivial
+  cases env.stdCheck sk val with
+  | rejected =>
+    dsimp only
+    apply ARel.bind (ARel.awarn _ hl)
+    intro _ _ _
+    exact ARel.pure trivial
+  | servings sv =>
+    dsimp only
+    apply ARel.bind (R := fun _ _ => True) (ARel.modify (by intro c' c hc; colsim hc))
+    intro _ _ _
+    apply ARel.bind hml
+    intro _ _ _
+    exact htail
+  | ok =>
+    dsimp only
+    apply ARel.bind hml
+    intro _ _ _
+    exact htail
+
+theorem metadataA_arel (env : Env) {k' k v' v : Text} (hk : TextSim env.cs.uws k' k) (hv : TextSim env.cs.uws v' v) :
+    ARel (α := α) uws (fun _ _ => True) (metadataA env k' v') (metadataA env k v) := by
+  unfold metadataA
+  simp only [hk.trimmed, hv.outerTrimmed]
+  apply ARel.bind ARel.get
+  intro s' s hs
+  simp only [hs.oldStyle]
+  have hstore : ARel (α := α) uws (fun _ _ => True)
+      (modify fun s => { s with oldStyleUsed := s.oldStyleUsed ++ [⟨k'.span.start, v'.span.stop⟩],
+                                metaMap := metaInsert s.metaMap (k.trimmed env.cs) (v.outerTrimmed env.cs) })
+      (modify fun s => { s with oldStyleUsed := s.oldStyleUsed ++ [⟨k.span.start, v.span.stop⟩],
+                                metaMap := metaInsert s.metaMap (k.trimmed env.cs) (v.outerTrimmed env.cs) }) := by
+    apply ARel.modify
+    intro c' c hc
+    colsim hc
+    show (c'.oldStyleUsed ++ [_]).length = (c.oldStyleUsed ++ [_]).length
+    simp [hc.oldStyleUsed]
+  have hrest : ARel (α := α) uws (fun _ _ => True)
+      (match StdKey.ofStr (String.ofList (k.trimmed env.cs)) with
+        | none => pure ()
+        | some sk =>
+          match env.stdCheck sk (v.outerTrimmed env.cs) with
+          | .rejected => do awarn "std-unsupported-value" [v'.span, k'.span]; pure ()
+          | .servings sv => do
+            modify fun s => { s with servings := some sv }
+            modify fun s => { s with metaLocs := (s.metaLocs.filter (fun p => p.1 != sk)) ++ [(sk, ⟨k'.span.start, v'.span.stop⟩)] }
+            if stdKeyIsTime sk then timeOverrideCheck sk else pure ()
+          | .ok => do
+            modify fun s => { s with metaLocs := (s.metaLocs.filter (fun p => p.1 != sk)) ++ [(sk, ⟨k'.span.start, v'.span.stop⟩)] }
+            if stdKeyIsTime sk then timeOverrideCheck sk else pure ())
+      (match StdKey.ofStr (String.ofList (k.trimmed env.cs)) with
+        | none => pure ()
+        | some sk =>
+          match env.stdCheck sk (v.outerTrimmed env.cs) with
+          | .rejected => do awarn "std-unsupported-value" [v.span, k.span]; pure ()
+          | .servings sv => do
+            modify fun s => { s with servings := some sv }
+            modify fun s => { s with metaLocs := (s.metaLocs.filter (fun p => p.1 != sk)) ++ [(sk, ⟨k.span.start, v.span.stop⟩)] }
+            if stdKeyIsTime sk then timeOverrideCheck sk else pure ()
+          | .ok => do
+            modify fun s => { s with metaLocs := (s.metaLocs.filter (fun p => p.1 != sk)) ++ [(sk, ⟨k.span.start, v.span.stop⟩)] }
+            if stdKeyIsTime sk then timeOverrideCheck sk else pure ()) := by
+    cases StdKey.ofStr (String.ofList (k.trimmed env.cs)) with
+    | none => exact ARel.pure trivial
+    | some sk => exact metadataStd_arel env sk _ _ _ _ _ rfl
+  apply ARel.ite
+  · apply ARel.ite
+    · apply ARel.ite
+      amod
+      apply ARel.ite
+      amod
+      apply ARel.ite
+      amod
+      apply ARel.ite
+      amod
+      aerrp
+    · apply ARel.ite
+      · apply ARel.ite
+        amod
+        apply ARel.ite
+        amod
+        aerrp
+      · apply ARel.bind (ARel.awarn _ (by rfl))
+        intro _ _ _
+        apply ARel.ite
+        amod
+        exact ARel.pure trivial
+  · apply ARel.ite
+    · apply ARel.bind (ARel.apanic _ _)
+      intro _ _ _
+      apply ARel.bind hstore
+      intro _ _ _
+      exact hrest
+    · apply ARel.bind hstore
+      intro _ _ _
+      exact hrest
+
 end Cook
